@@ -389,7 +389,8 @@ struct Gen {
             else {
                 std::string st = r.coin(1, 2) ? "SHUT" : (r.coin(4, 5) ? "OPEN" : "AUTO");
                 k.recs.push_back({ wellPat(allowQ), st, std::to_string(r.range(0, 3)), std::to_string(r.range(0, 3)), std::to_string(r.range(0, 4)) });
-                if (rich2 && r.coin(1, 3)) { k.recs.back()[2] = "0"; k.recs.back()[3] = "0"; if (r.coin()) k.recs.back()[4] = "0"; k.recs.back().push_back(std::to_string(r.range(0, 3))); k.recs.back().push_back(std::to_string(r.range(0, 4))); }
+                if (st == "SHUT" && r.coin(1, 3)) { k.recs.back()[2] = "0"; k.recs.back()[3] = "0"; k.recs.back()[4] = "0"; }   // all connections: end_report shuts the well
+                else if (rich2 && r.coin(1, 3)) { k.recs.back()[2] = "0"; k.recs.back()[3] = "0"; if (r.coin()) k.recs.back()[4] = "0"; k.recs.back().push_back(std::to_string(r.range(0, 3))); k.recs.back().push_back(std::to_string(r.range(0, 4))); }
             }
         }
         return k;
@@ -943,7 +944,16 @@ int corr(uint64_t seed, const std::string& tier, const std::string& outdir) {
             }
         }
         size_t n = 1; for (auto& k : ks) n += k.nsteps();
-        if (r.ok) { n = r.sched->size(); sink.count("steps", (long) n); }
+        if (r.ok) {
+            n = r.sched->size(); sink.count("steps", (long) n);
+            // what the accepted schedules exercise
+            for (size_t k = 1; k < n; ++k) for (const auto& wn : r.sched->wellNames(k - 1)) {
+                const auto& w0 = r.sched->getWell(wn, k - 1); const auto& w1 = r.sched->getWell(wn, k);
+                if (w0.isProducer() != w1.isProducer()) sink.count(w1.isProducer() ? "switch-injector-to-producer" : "switch-producer-to-injector");
+                if (w0.getHeadI() != w1.getHeadI() || w0.getHeadJ() != w1.getHeadJ()) sink.count("head-changed");
+                if (w0.getStatus() != Well::Status::SHUT && w1.getStatus() == Well::Status::SHUT && w1.getConnections().allConnectionsShut()) sink.count("auto-shut-in");
+            }
+        }
         for (auto& k : ks) sink.count("kw." + k.name);
         for (size_t k = 0; k < n; ++k)
             sink.emit("sched.obs " + std::to_string(k) + " " + consts + " " + START_ENC + " " + enc, r.ok ? dumpState(*r.sched, k) : "err");
@@ -1244,6 +1254,13 @@ int acorr(uint64_t seed, const std::string& tier, const std::string& outdir) {
         bool nondecr = true; for (size_t i = 1; i < apps.size(); ++i) if (apps[i].n < apps[i - 1].n) nondecr = false;
         sink.count(nondecr ? "seq-nondecreasing" : "seq-with-decrease");
         sink.count("apps", (long) apps.size());
+        for (auto& a : apps) {       // applications at a step that end_report closed with an automatic shut-in (the case the first round excluded)
+            bool any = false;
+            for (const auto& wn : r.sched->wellNames(a.n)) { const auto& w = r.sched->getWell(wn, a.n); if (w.getConnections().allConnectionsShut() && !w.getConnections().empty()) any = true; }
+            if (any) sink.count("apps-at-step-with-auto-shut-in");
+        }
+        for (auto& a : apps) for (size_t i = 0; i < ks.size(); ++i) if (ks[i].name == "ACTIONX" && ks[i].recs[0][0] == a.action)
+            for (size_t j = i + 1; j < ks.size() && ks[j].name != "ENDACTIO"; ++j) sink.count("body." + ks[j].name);
         const bool ok = applyReal(*r.sched, apps);
         sink.count(ok ? "apply-ok" : "apply-err");
         const std::string enc = encSched(ks), ea = encApps(apps);
